@@ -95,6 +95,7 @@ func (chain *BlockChain) ProcessBlock(broadcast bool, block *types.BlockDetail, 
 	}
 	if !prevHashExists {
 		chainlog.Debug("ProcessBlock:AddOrphanBlock", "height", block.Block.GetHeight(), "blockHash", common.ToHex(blockHash), "prevHash", common.ToHex(prevHash))
+		verifDelay("orphan-before-add", block.Block.Height)
 		chain.orphanPool.AddOrphanBlock(broadcast, block.Block, pid, sequence)
 		return nil, false, true, nil
 	}
